@@ -178,6 +178,11 @@ func normalizeDnsRuntimeBehavior(option *DnsControllerOption) (qtypePrefer uint1
 	}
 	optimisticCacheTtl = option.OptimisticCacheTtl
 	maxCacheSize = option.MaxCacheSize
+	if optimisticCacheTtl < 0 {
+		// 0 is the documented "no limit" value. A negative window used to be taken for "no
+		// limit" as well, and additionally switched the janitor's time-based eviction off.
+		return 0, false, 0, 0, fmt.Errorf("optimistic_cache_ttl must not be negative (0 = stale answers never expire): %v", optimisticCacheTtl)
+	}
 	if optimisticCacheTtl == 0 && maxCacheSize == 0 {
 		optimisticCacheTtl = 60
 	}
